@@ -56,11 +56,12 @@ type c12Text struct {
 func mi5gs(b []byte) *nasType.MobileIdentity5GS {
 	m := nasType.NewMobileIdentity5GS(0)
 	m.SetLen(uint16(len(b)))
-	copy(m.Buffer, b)
+	m.Buffer = guardIn(b) // the element's buffer as a decoder that does not copy would leave it: a window into the received message
 	return m
 }
 
 func c12PlmnExec(c *core.Ctx, in c12Plmn) {
+	guardReset()
 	c.Distinct(core.Hash64("plmn", in.Mcc, in.Mnc), in.Mcc != "000" || (in.Mnc != "00" && in.Mnc != "000"))
 	want := refconv.PlmnOctets(in.Mcc, in.Mnc)
 	var got []byte
@@ -70,8 +71,12 @@ func c12PlmnExec(c *core.Ctx, in c12Plmn) {
 		var ok bool
 		got, ok = scribbleRecall(func() []byte { return nasConvert.PlmnIDToNas(models.PlmnId{Mcc: in.Mcc, Mnc: in.Mnc}) })
 		shared = !ok
-		txt = nasConvert.PlmnIDToString(want[:])
+		txt = nasConvert.PlmnIDToString(guardIn(want[:]))
 	})
+	if w := guardCheck(); w != "" && pi == nil {
+		c.FailCase("plmn|PlmnIDToString|writes-to-callers-buffer", fmt.Sprintf("PlmnIDToString(%x): %s", want, w), "plmn", in)
+		return
+	}
 	if pi == nil && shared {
 		c.FailCase("plmn|PlmnIDToNas|result-shared-between-calls", fmt.Sprintf("PlmnIDToNas(%s,%s): after the caller overwrote the first result a second call returns different octets", in.Mcc, in.Mnc), "plmn", in)
 		return
@@ -141,6 +146,7 @@ func c12AmfExec(c *core.Ctx, in c12Amf) {
 }
 
 func c12GutiExec(c *core.Ctx, in c12Guti) {
+	guardReset()
 	c.Distinct(core.Hash64("guti", in.Mcc, in.Mnc, in.Amf, in.Tmsi), in.Tmsi != 0)
 	txt := refconv.GutiText(in.Mcc, in.Mnc, in.Amf, in.Tmsi)
 	wire := refconv.GutiOctets(in.Mcc, in.Mnc, in.Amf, in.Tmsi)
@@ -152,8 +158,12 @@ func c12GutiExec(c *core.Ctx, in c12Guti) {
 	var err2 error
 	pi := core.Try(func() {
 		g, err = nasConvert.GutiToNasWithError(txt)
-		guami, back, err2 = nasConvert.GutiToStringWithError(wire[:])
+		guami, back, err2 = nasConvert.GutiToStringWithError(guardIn(wire[:]))
 	})
+	if w := guardCheck(); w != "" && pi == nil {
+		fail("GutiToString|writes-to-callers-buffer", fmt.Sprintf("GutiToStringWithError(%x): %s", wire, w))
+		return
+	}
 	if pi != nil {
 		fail(pi.Key(), "panics: "+pi.Msg)
 		return
@@ -210,10 +220,15 @@ func c12GutiExec(c *core.Ctx, in c12Guti) {
 	wantST := fmt.Sprintf("%04x%08x", uint16(s)<<6|uint16(p), in.Tmsi)
 	if serr != nil || sv != wantST || sty != "5G-S-TMSI" || sset != strconv.Itoa(int(s)) || sptr != strconv.Itoa(int(p)) || stm != fmt.Sprintf("%08x", in.Tmsi) {
 		fail("MobileIdentity5GS|stmsi-getters", fmt.Sprintf("getters on %x: %q %q set %q pointer %q tmsi %q, want %q", st, sv, sty, sset, sptr, stm, wantST))
+		return
+	}
+	if w := guardCheck(); w != "" {
+		fail("MobileIdentity5GS|getter-writes-to-element-buffer", fmt.Sprintf("text getters on %x / %x: %s", wire, st, w))
 	}
 }
 
 func c12SuciExec(c *core.Ctx, in c12Suci) {
+	guardReset()
 	c.Distinct(core.Hash64("suci", in.Mcc, in.Mnc, in.Routing, in.Scheme, in.HnKey, in.Msin, in.Output, in.Nai), true)
 	fail := func(k, w string) { c.FailCase("suci|"+k, w, "suci", in) }
 	var wire []byte
@@ -231,9 +246,13 @@ func c12SuciExec(c *core.Ctx, in c12Suci) {
 	var gs, gp, ms string
 	var err error
 	pi := core.Try(func() {
-		gs, gp, err = nasConvert.SuciToStringWithError(wire)
+		gs, gp, err = nasConvert.SuciToStringWithError(guardIn(wire))
 		ms = mi5gs(wire).GetSUCI()
 	})
+	if w := guardCheck(); w != "" && pi == nil {
+		fail("SuciToString|writes-to-callers-buffer", fmt.Sprintf("SuciToStringWithError(%x): %s", wire, w))
+		return
+	}
 	if pi != nil {
 		fail(pi.Key(), "panics: "+pi.Msg)
 		return
@@ -251,24 +270,33 @@ func c12SuciExec(c *core.Ctx, in c12Suci) {
 		pi = core.Try(func() { m := mi5gs(wire); a, b, d = m.GetMCC(), m.GetMNC(), m.GetPlmnID() })
 		if pi != nil || a != in.Mcc || b != in.Mnc || d != plmn {
 			fail("MobileIdentity5GS|plmn-getters", fmt.Sprintf("GetMCC/GetMNC/GetPlmnID on %x = %q %q %q (%v)", wire, a, b, d, pi))
+			return
+		}
+		if w := guardCheck(); w != "" {
+			fail("MobileIdentity5GS|getter-writes-to-element-buffer", fmt.Sprintf("GetMCC/GetMNC/GetPlmnID on %x: %s", wire, w))
 		}
 	}
 }
 
 func c12PeiExec(c *core.Ctx, in c12Pei) {
+	guardReset()
 	c.Distinct(core.Hash64("pei", in.Digits, in.Sv), true)
 	wire := refconv.PeiOctets(in.Digits, in.Sv)
 	txt := refconv.PeiText(in.Digits, in.Sv)
 	var got, mg string
 	var err error
 	pi := core.Try(func() {
-		got, err = nasConvert.PeiToStringWithError(wire)
+		got, err = nasConvert.PeiToStringWithError(guardIn(wire))
 		if in.Sv {
 			mg = mi5gs(wire).GetIMEISV()
 		} else {
 			mg = mi5gs(wire).GetIMEI()
 		}
 	})
+	if w := guardCheck(); w != "" && pi == nil {
+		c.FailCase("pei|PeiToString|writes-to-callers-buffer", fmt.Sprintf("PeiToStringWithError(%x): %s", wire, w), "pei", in)
+		return
+	}
 	if pi != nil {
 		c.FailCase("pei|"+pi.Key(), "panics: "+pi.Msg, "pei", in)
 		return
